@@ -60,6 +60,9 @@ type req struct {
 	Off  int    `json:"off,omitempty"` // offset of the first positive bucket
 	C    int64  `json:"c,omitempty"`   // per-bucket count
 	Err  string `json:"err,omitempty"`
+
+	h  *histogram.Histogram      // the object handed to AppendHistogram (the commit may change it in place)
+	fh *histogram.FloatHistogram //
 }
 
 type hop struct {
@@ -427,8 +430,8 @@ func (r *runner) doAppend(o hop) {
 	case kFloatStale:
 		ref, err = a.app.Append(0, lbl(q.S), q.T, staleNaN)
 	default:
-		h, fh := mkHist(q.Kind, q.NB, q.Off, q.C)
-		ref, err = a.app.AppendHistogram(0, lbl(q.S), q.T, h, fh)
+		q.h, q.fh = mkHist(q.Kind, q.NB, q.Off, q.C)
+		ref, err = a.app.AppendHistogram(0, lbl(q.S), q.T, q.h, q.fh)
 	}
 	after := r.walk()
 	created := int64(-1)
@@ -550,8 +553,16 @@ func (r *runner) doClose(o hop, commit bool) {
 				nbIn = q.NB
 			}
 			nbAfter := nbIn
-			if j == len(newS)-1 && x.Kind != 0 {
+			switch {
+			case q.h != nil: // the appender kept this pointer; it is what lastHistogramValue pointed to
+				nbAfter = len(q.h.PositiveBuckets) + len(q.h.NegativeBuckets)
+			case q.fh != nil:
+				nbAfter = len(q.fh.PositiveBuckets) + len(q.fh.NegativeBuckets)
+			case j == len(newS)-1 && x.Kind != 0: // converted staleness marker
 				nbAfter = as.LastBuckets
+			}
+			if j == len(newS)-1 && x.Kind != 0 && nbAfter != as.LastBuckets {
+				panic(fmt.Sprintf("bucket entries of the last landed histogram: %d, lastHistogramValue has %d", nbAfter, as.LastBuckets))
 			}
 			if x.Kind == 0 {
 				nbIn, nbAfter = 0, 0
@@ -918,16 +929,9 @@ func (r *runner) genReqs(g *gen.Rand, hist bool) []req {
 			k += 4 + g.Intn(6)
 		}
 		t := base
-		histSeen := false
 		for j := 0; j < k; j++ {
 			t += 1 + int64(g.Intn(25))
 			q := mk(t, j == k-1)
-			if q.Kind >= kHist {
-				if histSeen { // at most one histogram per series and transaction (see notes)
-					q.Kind, q.NB, q.Off = kFloat, 0, 0
-				}
-				histSeen = true
-			}
 			out = append(out, q)
 		}
 		if t > r.now {
@@ -1197,7 +1201,7 @@ func main() {
 		fmt.Println(o.cd.Shapes)
 		return
 	}
-	total := len(cp) + f.Count(40, 1500)
+	total := len(cp) + f.Count(40, 1000)
 	outs := make([]outcome, total)
 	var wg sync.WaitGroup
 	sem := make(chan struct{}, 8)
